@@ -47,6 +47,9 @@ CHECKS = {
     "C29": ("cases", "model_checking", "TLA+ ColAttrs.tla (abstract per-column / per-row attributes, Independence as action property) with TLC; every behaviour from every initial descriptor layout replayed on Model::set_column_* / set_row_*",
             "All layouts of <= 2 column descriptors (incl. multi-column ones) x all action sequences of length 2 (quick) / 3 (thorough); the (width, hidden, style) vector of every column compared after each step; same for rows.",
             "Layouts are injected through the public workbook value, as an import would produce them.", "4 C29"),
+    "C30": ("cases", "model_checking", "TLA+ Styles.tla (Assign, ReadBack, NoAliasing) with TLC; every assignment sequence replayed on set_cell_style / set_row_style / set_column_style and read back",
+            "All sequences of 2 (quick) / 3 (thorough) assignments over 4 targets x 18 styles; 7 reads (targets and untouched probes) compared after each step, and again after a binary reload.",
+            "Style pool chosen so that each attribute is varied alone.", "4 C30"),
 }
 
 
@@ -84,7 +87,7 @@ def main():
         "engines": [
             {"name": "history", "path": "spec/History.tla, spec/MC_History.tla, spec/TraceHistory.tla, bin/fam_history.py, harness/src/{world,histrec,ops,gen,project}.rs", "serves_properties": ["C01", "C02", "C03", "C04", "C26"], "kind_free_text": "TLC model checking + bidirectional conformance"},
             {"name": "selection", "path": "spec/Selection.tla, spec/MC_Selection.tla, spec/TraceSelection.tla, harness/src/behreplay.rs", "serves_properties": ["C28"], "kind_free_text": "TLC model checking + bidirectional conformance"},
-            {"name": "cases", "path": "spec/{Calendar,Grid,Lang,F4,NumberInput,NumberFormat}.tla, bin/fam_cases.py, harness/src/cases.rs", "serves_properties": ["C09", "C29", "C19", "C20", "C21", "C22", "C23", "C34"], "kind_free_text": "TLC case enumeration with expected results, replayed on the implementation"},
+            {"name": "cases", "path": "spec/{Calendar,Grid,Lang,F4,NumberInput,NumberFormat}.tla, bin/fam_cases.py, harness/src/cases.rs", "serves_properties": ["C09", "C29", "C30", "C19", "C20", "C21", "C22", "C23", "C34"], "kind_free_text": "TLC case enumeration with expected results, replayed on the implementation"},
             {"name": "structure", "path": "spec/TraceWellFormed.tla", "serves_properties": ["C27"], "kind_free_text": "TLC trace validation of a state predicate"},
         ],
         "checks": checks,
